@@ -57,6 +57,12 @@ let handle kind c =
     let now = next_z c in
     let off = next_z c in
     let today = utc_day now in
+    let tmp_name = next c in
+    let tmp = (match tmp_name with
+        | "default" -> TmpDefault | "samefs" -> TmpSameFs | "otherfs" -> TmpOtherFs
+        | "missing" -> TmpMissing | "notdir" -> TmpNotDir
+        | t -> failwith ("bad TMPDIR kind " ^ t)) in
+    let tmp_changed = next_bool c in
     let before = read_tree c in
     let after = read_tree c in
     let exit = next_int c in
@@ -67,7 +73,7 @@ let handle kind c =
     let lib_date = next_bytes c in
     let ok = exit = 0 in
     (* model vs implementation *)
-    let (mt, mok) = cli_run_at cmd now off before in
+    let (mt, mok) = cli_run_env cmd now off tmp before in
     check_eq "tree-after" show_tree (norm_tree mt) (norm_tree after);
     check_eq "exit-ok" string_of_bool mok ok;
     check_eq "env-after" esc (cli_env_output tdir after) env_after;
@@ -76,9 +82,11 @@ let handle kind c =
     check_eq "lib-date" esc (date_or_zero rd) lib_date;
     if cmd = CEnv then check_eq "env-stdout" esc (cli_env_output tdir before) stdout;
     (* the property on the real before/after pair *)
-    let detail () = Printf.sprintf "cmd=%s utc-date=%s zone-offset=%ss local-date=%s exit=%d before=%s after=%s" arg
+    let detail () = Printf.sprintf "cmd=%s TMPDIR=%s utc-date=%s zone-offset=%ss local-date=%s exit=%d before=%s after=%s" arg tmp_name
         (string_of_bytes (fmt_date today)) (match off with Z0 -> "0" | Zpos _ -> "+" ^ string_of_int (int_of_z off) | Zneg _ -> string_of_int (int_of_z off))
         (string_of_bytes (fmt_date (local_day now off))) exit (show_tree before) (show_tree after) in
+    if tmp_changed then
+      prop "tmpdir-touched" ("the command left the temporary directory changed: " ^ detail ());
     (match cmd with
      | CClean ->
        if not (dir_diff_ok cmd today before after ok) then prop "clean-exact" (detail ())
